@@ -1,8 +1,31 @@
-import Flatland.JsonUtil
+import Flatland.TreeJson
 open Lean Flatland.J
 namespace Flatland.Run.C08
+open Flatland.Tree Flatland.C08 Flatland.TreeJson
 
-/-- JSON case in, JSON observation out (stub until the model of C08 is written). -/
-def run (_j : Json) : Except String Json := .error "model runner for C08 not implemented yet"
+/-- per reachable element: label, labels of `.parents`, label of `.root`; `all_children` of the
+    root; for a call with Element arguments: is each one a child of the target afterwards -/
+def view (s : St) (r : Option StepObs) : Json :=
+  let els := reach [s.root]
+  let fuel := fuelOf s
+  let rows := els.map (fun e =>
+    Json.arr #[lab s e.id,
+      Json.arr ((parentsOf s.univ fuel e).map (fun p => lab s p.id)).toArray,
+      lab s (rootOf s.univ fuel e).id,
+      Json.arr ((pathOf s.univ fuel e).map (fun p => lab s p.id)).toArray])
+  let ac := (allChildren s.root).map (fun e => lab s e.id)
+  let placed : List Json := match r with
+    | some ro =>
+      (match ro.target with
+       | some tid =>
+         (match (nodes s.root).find? (fun n => n.id == tid) with
+          | some t => ro.placed.map (fun a => Json.bool ((children t).any (fun c => c.id == a)))
+          | none => ro.placed.map (fun _ => Json.bool false))
+       | none => [])
+    | none => []
+  obj [("els", Json.arr rows.toArray), ("ac", Json.arr ac.toArray), ("placed", Json.arr placed.toArray)]
+
+def run (j : Json) : Except String Json := do
+  runCase (← parseCase j) view
 
 end Flatland.Run.C08
